@@ -117,8 +117,15 @@ def exec_job(job):
             rec["dp"], rec["dq"] = job["dp"], job["dq"]
             f = job.get("f")
             rec["f"] = [int(v) for v in f] if f else [1] * n
-            out = bct.pagerank_centrality(A(), job["dp"] / job["dq"],
-                                          falff=np.array(f, dtype=job.get("f_dtype", "float64")) if f else None)
+            # the prior in the caller's units (seed round 7): only its proportions matter, so the
+            # real call may see f / 2 or f / 4 (fractional entries, some below 1) while the record and
+            # the specification keep the integers; float dtype only (a power of two: exact)
+            fa = None
+            if f:
+                fa = np.array(f, dtype=job.get("f_dtype", "float64"))
+                if job.get("f_den") and fa.dtype.kind == "f":
+                    fa = fa / job["f_den"]
+            out = bct.pagerank_centrality(A(), job["dp"] / job["dq"], falff=fa)
         elif fn == "eigenvector_centrality_und":
             out = bct.eigenvector_centrality_und(np.asmatrix(A()) if job.get("as_matrix") else A())
         elif fn == "subgraph_centrality":
@@ -256,7 +263,8 @@ def walk_jobs(A, src, rng, falff=False, p_plain=None):
         f = rng.choice([[rng.randint(1, 3) for _ in range(n)], [2] * n,
                         [1 if rng.random() < 0.4 else 3 for _ in range(n)]])
         out.append(J("pagerank_centrality:d=0.85:falff", A, src, v, dp=17, dq=20, f=f,
-                     f_dtype=rng.choice(["float64", "int64"]) if p_plain is not None else "float64"))
+                     f_dtype=rng.choice(["float64", "int64"]) if p_plain is not None else "float64",
+                     f_den=rng.choice([0, 2, 4])))
     return out
 
 
